@@ -83,6 +83,7 @@ PROGRAMS = {
     "send-plain": [("send", lambda: gg.Off(A.GearShort(6)))],
     "send0": [("send", lambda: gg.QueryActualLevel(A.GearShort(1)))],
     "send6": [("send", lambda: led.QueryFeatures(A.GearShort(2)))],
+    "send6b": [("send", lambda: led.QueryGearType(A.GearShort(9)))],
     "seq-plain": [("seq", lambda: [gg.DAPC(A.GearShort(3), 9), SQ.sleep(0.01), gg.QueryStatus(A.GearShort(3))])],
     "seq-dt": [("seq", lambda: [gg.DTR0(5), colour.Activate(A.GearShort(4)), SQ.progress(message="x"),
                                 led.QueryGearType(A.GearShort(4))])],
@@ -317,14 +318,14 @@ def h_schedule(ctx, driver, names, fault, sym_calls=3):
 
 # real gateway layer ------------------------------------------------------------------------------
 
-def h_real_sci(ctx, which):
+def h_real_sci(ctx, which, bprog="seq-dt"):
     """Two callers on the real LUBA / SCI driver *and* protocol object (only the serial line is a model): A
     sends a stand-alone device-type query, B runs a sequence with a device-type command.  The interface
     confirms every frame except a solver-chosen one, for which it reports an error (SCI: status code 7) or
     nothing at all; the bytes written to the line, read back per the wire format, must still be whole units
     with every device-type command directly behind its own ENABLE DEVICE TYPE."""
     log = Log()
-    progs = {"A": PROGRAMS["send6"], "B": PROGRAMS["seq-dt"]}
+    progs = {"A": PROGRAMS["send6"], "B": PROGRAMS[bprog]}
     closed = {k: [] for k in progs}
     bad_at = ctx.fresh_choice("bad_frame", 7)          # index of the written frame that is not confirmed (6 = none)
     bad_kind = ctx.fresh_choice("bad_kind", 2) if which == "sci" else 1     # 0: error status, 1: silence
@@ -409,7 +410,8 @@ def h_real_sci(ctx, which):
             if prev is not None:
                 done.add(prev)
             prev = who
-    ctx.prove(len(closed["B"]) == 1, "sequence generator was not closed", key=tag + "/not-closed")
+    if progs["B"][0][0] == "seq":
+        ctx.prove(len(closed["B"]) == 1, "sequence generator was not closed", key=tag + "/not-closed")
     return " ".join("%s=%s" % kv for kv in sorted(fin.items())) + " | " + "".join(str(c) for c, _, _ in log.emissions)
 
 
@@ -565,6 +567,9 @@ def cases(tier):
                                    {"driver": drv, "names": names, "fault": fault}))
     for which in ("sci", "luba"):
         cs.append(Case("%s-real-layer" % which, h_real_sci, {"which": which}))
+        # both callers use the same device type: nothing remembered about one caller's prefix may stand in
+        # for the other's
+        cs.append(Case("%s-real-layer-same-dt" % which, h_real_sci, {"which": which, "bprog": "send6b"}))
     for bprog in ("send-plain", "send6", "seq-twice"):
         cs.append(Case("hid-real-layer-%s" % bprog, h_real_hid, {"bprog": bprog},
                        install=rigs.install_tridonic_structs))
